@@ -40,8 +40,12 @@ TRUSTED = [
 ]
 ASSUMPTIONS = [
     "coordinates and data values are small integers so that float comparison is exact",
-    "objects are Points, Curve or Surface with FloatData/IntegerData/BooleanData children (text data is not modelled)",
-    "clear_cache=False; vertices are never grown through the vertices setter; explicit cell_mask only without a vertex mask",
+    "objects are Points, Curve or Surface with float / integer / referenced / boolean / per-element text children",
+    "per-element text data: arrays are never shorter than the element count, keep at least two entries and are not copied "
+    "without dropping an element (text data are not padded, a one-entry array reads back as a scalar, an empty one cannot be "
+    "written, Data.copy of an undiminished str array raises: observed, listed in notes/C07.md, outside the generated scope)",
+    "clear_cache=False; vertices are never grown through the vertices setter; an explicit cell_mask given with a vertex mask "
+    "only keeps cells inside that mask",
     "a history stops after an operation that fails leaving changed state, or once a data array has become empty "
     "(then only the final re-open is observed)",
 ]
@@ -67,9 +71,10 @@ TECHNIQUE = "Coq proof over a hand model (induction on masks/children/histories)
 
 INT_NDV = -2147483648
 ASSOC = {"VERTEX": "AVertex", "CELL": "ACell", "OBJECT": "AObject"}
-KIND = {"float": "KFloat", "int": "KInt", "bool": "KBool"}
+KIND = {"float": "KFloat", "int": "KInt", "bool": "KBool", "text": "KText", "ref": "KInt"}  # referenced data behave as integer data
 OKIND = {"Points": "OPoints", "Curve": "OCurve", "Surface": "OSurface"}
 ERRS = {"ValueError", "IndexError", "AxisError", "TypeError"}
+ERR_ALIAS = {"UFuncTypeError": "TypeError", "_UFuncNoLoopError": "TypeError"}
 
 _FLAGS = None
 
@@ -237,6 +242,8 @@ def spec_apply(E, op):
         keepv = [bool(b) for b in m] if m is not None else [True] * len(E["verts"])
         if cm is not None:
             keepc = [bool(b) for b in cm]
+            if any(b and not all(keepv[v] for v in c) for c, b in zip(E["cells"], keepc)):
+                return E2, "refuse"  # a kept cell uses a dropped vertex: the request is inconsistent, the text defines nothing
         else:
             keepc = [all(keepv[v] for v in c) for c in E["cells"]]
         return _select(E2, keepv, keepc), "ok"
@@ -268,6 +275,8 @@ def _select(E, keepv, keepc):
 def _gen_vals(rng, kind, n):
     if kind == "bool":
         return [rng.below(2) for _ in range(n)]
+    if kind == "ref":
+        return [None if rng.chance(8) else rng.range(0, 5) for _ in range(n)]
     return [None if rng.chance(12) else rng.range(-40, 40) for _ in range(n)]
 
 
@@ -276,11 +285,15 @@ def _gen_add(rng, E, kid_id, allow_bad=False):
     # fate at re-open depends on workspace-level state (C06 territory); one such history is kept in corpus/C07
     cls = E["cls"]
     assoc = rng.weighted([("VERTEX", 55), ("CELL", 35 if cls != "Points" else 0), ("OBJECT", 10)])
-    kind = rng.weighted([("float", 60), ("int", 25), ("bool", 15)])
+    kind = rng.weighted([("float", 40), ("int", 15), ("bool", 10), ("ref", 10), ("text", 25)])
     n = _count(E, assoc)
+    if kind == "text" and (assoc == "OBJECT" or n < 2):
+        kind = "float"  # per-element text needs at least two elements (a one-entry text array reads back as a scalar)
     style = rng.weighted([("full", 68), ("short", 14), ("none", 9), ("long", 9 if allow_bad else 0)])
     if assoc == "OBJECT":
         style = "full"
+    if kind == "text" and style == "short":
+        style = "full"  # text data are stored unpadded; short text arrays are outside the generated scope (see notes)
     if style == "none":
         vals = None
     else:
@@ -361,13 +374,20 @@ def _gen_case(rng):
             ln = rng.weighted([(n, 55), (rng.range(0, max(0, n - 1)), 25), (n + rng.range(1, 2), 20)])
             if kid["assoc"] == "OBJECT":
                 ln = 1
+            if kid["kind"] == "text" and ln < n:
+                ln = n
             op = {"op": "set", "id": kid["id"], "vals": _gen_vals(rng, kid["kind"], ln)}
         elif k == "add":
             op = _gen_add(rng, E, next_id)
             next_id += 1
         elif k == "copy":
             n, nc = len(E["verts"]), len(E["cells"])
-            if arity and rng.chance(25):
+            if arity and rng.chance(22):
+                # vertex mask and an explicit cell mask choosing among the cells that lie inside it
+                m = [int(rng.chance(80)) for _ in range(n)]
+                inside = [all(m[v] for v in c) for c in E["cells"]]
+                op = {"op": "copy", "mask": m, "cmask": [int(b and rng.chance(70)) for b in inside]}
+            elif arity and rng.chance(25):
                 op = {"op": "copy", "mask": None, "cmask": [int(rng.chance(75)) for _ in range(nc if not rng.chance(6) else nc + 1)]}
             else:
                 st = rng.weighted([("rand", 78), ("all", 8), ("none", 5), ("shape", 6), ("plain", 3)])
@@ -384,8 +404,19 @@ def _gen_case(rng):
                 op = {"op": "copy", "mask": m, "cmask": None}
         else:
             op = {"op": "reopen"}
+        E2, want = spec_apply(E, op)
+        if want == "ok" and op["op"] in ("rv", "rc", "copy"):
+            for kid in E["kids"]:
+                if kid["kind"] == "text" and kid["vals"] is not None:
+                    new = next(k2 for k2 in E2["kids"] if k2["id"] == kid["id"])["vals"]
+                    # per-element text data: keep at least two entries (one entry reads back as a scalar, zero cannot be
+                    # written) and never copy without dropping something (Data.copy multiplies a str array): see notes
+                    if len(new) < 2 or (op["op"] == "copy" and len(new) == len(kid["vals"])):
+                        op = {"op": "reopen"}
+                        E2, want = spec_apply(E, op)
+                        break
         case["ops"].append(op)
-        E, _ = spec_apply(E, op)
+        E = E2
     return case
 
 
@@ -398,8 +429,20 @@ def generate(rng, tier):
 def _canon_vals(arr):
     import numpy as np
 
+    if isinstance(arr, str):
+        arr = np.array([arr])
     a = np.asarray(arr)
     out = []
+    if a.dtype.kind in "USO":
+        for x in a.ravel().tolist():
+            x = x.decode() if isinstance(x, bytes) else x
+            if x == "":
+                out.append(None)
+            elif isinstance(x, str) and x[:1] == "t" and x[1:].lstrip("-").isdigit():
+                out.append(int(x[1:]))
+            else:
+                out.append({"float": repr(x)})
+        return out
     if a.dtype == bool:
         return [int(x) for x in a.ravel().tolist()]
     if np.issubdtype(a.dtype, np.integer):
@@ -444,9 +487,15 @@ def _arr(vals, kind):
 
     if kind == "float":
         return np.array([np.nan if v is None else float(v) for v in vals], dtype=float)
-    if kind == "int":
+    if kind in ("int", "ref"):
         return np.array([INT_NDV if v is None else int(v) for v in vals], dtype="int32")
+    if kind == "text":
+        return np.array(["" if v is None else f"t{v}" for v in vals], dtype=str)
     return np.array([bool(v) for v in vals], dtype=bool)
+
+
+def G_id(name):
+    return int(name[1:]) if name.startswith("d") and name[1:].isdigit() else None
 
 
 def drive_one(case, work):
@@ -503,7 +552,12 @@ def drive_one(case, work):
                     spec = {"association": op["assoc"]}
                     if op["vals"] is not None:
                         spec["values"] = _arr(op["vals"], op["kind"])
-                    if op["kind"] == "bool" and op["vals"] is None:
+                    if op["kind"] == "text":
+                        spec["type"] = "text"
+                    elif op["kind"] == "ref":
+                        spec["type"] = "referenced"
+                        spec["value_map"] = {i: f"unit{i}" for i in range(1, 6)}
+                    elif op["kind"] == "bool" and op["vals"] is None:
                         spec["type"] = "boolean"
                     elif op["kind"] == "int" and op["vals"] is None:
                         spec["type"] = "integer"
@@ -523,7 +577,7 @@ def drive_one(case, work):
                     ws = Workspace(path)
                     obj = ws.get_entity(uid)[0]
             except Exception as e:  # noqa: BLE001
-                err = type(e).__name__
+                err = ERR_ALIAS.get(type(e).__name__, type(e).__name__)
             snap = _snap(obj)
             steps.append({"err": err, "snap": snap})
             executed.append({kk: vv for kk, vv in op.items() if kk != "final"})
@@ -535,6 +589,8 @@ def drive_one(case, work):
                     stop = "dirty"
                 if any(kd["vals"] == [] for kd in snap["kids"]):
                     stop = stop or "empty"
+                if any(kinds.get(G_id(kd["name"])) == "text" and isinstance(kd["vals"], list) and len(kd["vals"]) < 2 for kd in snap["kids"]):
+                    stop = stop or "text-short"
             prev = snap
         return {"init": init, "steps": steps, "executed": executed, "stopped": stop}
     finally:
@@ -571,6 +627,8 @@ def _kid_id(name):
 def _snap_term(snap):
     if any(isinstance(x, dict) for p in snap["verts"] for x in p):
         return None
+    if any(not 0 <= v < 5000 for c in snap["cells"] for v in c):
+        return None  # negative / absurd vertex references: nothing the model can produce
     ks = []
     for kd in snap["kids"]:
         kid = _kid_id(kd["name"])
@@ -618,6 +676,13 @@ def _obj_term(case):
 
 
 def case_term(case, obs):
+    try:
+        return _case_term(case, obs)
+    except Exception:  # noqa: BLE001 - an observation the term builder cannot print is a disagreement, not a crash
+        return "false"
+
+
+def _case_term(case, obs):
     if "steps" not in obs:
         return "false"
     # the object as created must be the object asked for
